@@ -122,10 +122,17 @@ fn gen_base(t: &mut Tape) -> Scenario {
             _ => {
                 for _ in 0..t.range(1, 12) {
                     ops.extend_from_slice(&[OP_WRITE, t.range(0, 30)]);
+                    if t.below(4) == 0 {
+                        ops.extend_from_slice(&[OP_FLUSH, 0]);
+                    }
                 }
             }
         }
-        ops.extend_from_slice(&[OP_WRITE_ALL, 0, OP_FINISH, 0]);
+        ops.extend_from_slice(&[OP_WRITE_ALL, 0]);
+        if t.below(3) == 0 {
+            ops.extend_from_slice(&[OP_FLUSH, 0]);
+        }
+        ops.extend_from_slice(&[OP_FINISH, 0]);
         sc.set_l("ops", ops);
     }
     sc
@@ -142,6 +149,8 @@ struct Outcome {
     flushes: u64,
     log: u64,
     short_writes: u64,
+    /// Stream only: (op, returned Ok, a hard sink fault fired during the call)
+    calls: Vec<(u64, bool, bool)>,
 }
 
 fn execute(sc: &Scenario) -> Outcome {
@@ -160,8 +169,12 @@ fn execute(sc: &Scenario) -> Outcome {
         Faults::from_list(sc.l("sink_ffaults")),
     );
     let src_faults = Faults::from_list(sc.l("src_faults"));
+    let mut calls = Vec::new();
     let (v, ro) = if ep == EP_STREAM {
         let o = run_stream(sc.b("input"), sc.l("ops"), &opts, sink, &st, false);
+        for e in &o.events {
+            calls.push((e.op, e.result.is_ok(), e.fault_fired));
+        }
         (stream_verdict(&o), ReadOutcome::default())
     } else {
         run_with_reader(
@@ -194,6 +207,7 @@ fn execute(sc: &Scenario) -> Outcome {
         flushes: s.flushes,
         log: ro.log ^ s.log.rotate_left(17),
         short_writes: s.short_writes,
+        calls,
     }
 }
 
@@ -224,6 +238,36 @@ fn judge(sc: &Scenario, o: &Outcome) -> Option<Violation> {
             ),
             sc,
         ));
+    }
+    if ep == EP_STREAM && o.fired_hard > 0 {
+        // per-call rule: the call during which the sink failed must itself fail
+        for (i, (op, ok, fired)) in o.calls.iter().enumerate() {
+            if *fired && *ok {
+                return Some(Violation::new(
+                    "fault_swallowed",
+                    epn,
+                    format!(
+                        "call #{} (op {}) returned Ok although a hard sink fault fired during it",
+                        i, op
+                    ),
+                    sc,
+                ));
+            }
+        }
+        let only_in_flush_ops = o.calls.iter().all(|(op, _, fired)| !*fired || *op == OP_FLUSH);
+        if only_in_flush_ops {
+            // the failure was reported by flush() itself; the stream may go on and
+            // then has to deliver the complete output
+            if o.v.is_ok() && o.accepted.len() != sc.b("expect").len() {
+                return Some(Violation::new(
+                    "output_incomplete",
+                    epn,
+                    format!("after a failed explicit flush the stream finished Ok with {} of {} bytes", o.accepted.len(), sc.b("expect").len()),
+                    sc,
+                ));
+            }
+            return None;
+        }
     }
     if o.fired_hard > 0 {
         if !o.v.is_err() {
@@ -361,7 +405,7 @@ impl Property for C12 {
             "the expected decoder output comes from the reference LZ model; the expected encoder output is the fault-free output of the same encoder under the same source script (its correctness is C04's subject)",
             "a fault that was scripted but never reached does not oblige an error (only fired faults do)",
             "io::ErrorKind::Interrupted is retryable: Err or exact success are both accepted",
-            "Stream histories in this check contain write and finish only; a failing explicit flush() is reported to the caller by flush() itself",
+            "for Stream the rule is per call: the write/flush/finish call during which the sink failed must itself return Err; after a failed explicit flush() the stream may continue and must then deliver the complete output",
         ]
     }
     fn run(&self, t: &mut Tape, ctx: &mut Ctx) -> Vec<Violation> {
